@@ -28,10 +28,10 @@ TAU = Fraction(1, 10**13)  # relative tolerance of every numeric equality (margi
 
 
 class Path:
-    __slots__ = ("pc", "out", "exc", "decisions")
+    __slots__ = ("pc", "out", "exc", "decisions", "syntactic")
 
-    def __init__(self, pc, out, exc, decisions):
-        self.pc, self.out, self.exc, self.decisions = pc, out, exc, decisions
+    def __init__(self, pc, out, exc, decisions, syntactic=0):
+        self.pc, self.out, self.exc, self.decisions, self.syntactic = pc, out, exc, decisions, syntactic
 
 
 class Engine:
@@ -47,6 +47,7 @@ class Engine:
         self.active = False
         self.hash_reps = []
         self.fresh_ctr = 0
+        self.syntactic = 0
         # statistics
         self.n_feas_queries = 0
         self.n_feas_unknown = 0
@@ -69,8 +70,10 @@ class Engine:
             return cond
         cond = z3.simplify(cond)
         if z3.is_true(cond):
+            self.syntactic += 1  # a comparison of symbolic terms decided for all values by the simplifier (term identity / constants)
             return True
         if z3.is_false(cond):
+            self.syntactic += 1
             return False
         if not self.active:
             raise HarnessError("symbolic branch outside Engine.explore: %s" % cond)
@@ -130,18 +133,19 @@ class Engine:
                 self.pc = []
                 self.hash_reps = []
                 self.fresh_ctr = 0
+                self.syntactic = 0
                 self.solver.reset()
                 self.solver.set("timeout", self.query_timeout_ms)
                 self.active = True
                 try:
                     out = fn()
-                    results.append(Path(list(self.pc), out, None, list(self.trace)))
+                    results.append(Path(list(self.pc), out, None, list(self.trace), self.syntactic))
                 except Infeasible:
                     pass
                 except (Abort, HarnessError, KeyboardInterrupt, SystemExit, MemoryError):
                     raise
                 except BaseException as e:  # noqa - every exception of the code under test is an outcome
-                    results.append(Path(list(self.pc), None, e, list(self.trace)))
+                    results.append(Path(list(self.pc), None, e, list(self.trace), self.syntactic))
                 finally:
                     self.active = False
                 self.n_paths += 1
